@@ -15,11 +15,13 @@ META = dict(
         'K1: process_collected returns the collected child-CA list (not a fresh empty vector) exactly on the accept path '
         'and calls accept_point there; process_stored likewise; an empty task list is returned only after reject_point. '
         'In process_ca_task every child task is either queued or processed. commit() pushes the point whenever it is '
-        'non-empty and SnapshotBuilder::process_pub_point drains all three payload vectors.'),
+        'non-empty and SnapshotBuilder::process_pub_point drains all three payload vectors. Shared with C04 (same rule '
+        'function): StoredPoint::_update touches the in-memory file handle and manifest only after the object generator '
+        'finished, so an aborted update leaves the stored (valid) version readable for the fallback in the same run.'),
     decides='no code path discards a validated object, its siblings or its child CAs other than the documented filters',
     undecided='completeness of acceptance inside the rpki crate; the documented filters themselves (C08/C09)',
     trusted_base=['rustc MIR construction + callee resolution'],
-    rules=['K4 outcome tables of 7 processors', 'K1 accept/reject vs returned task list', 'K3 payload vectors drained'],
+    rules=['K4 outcome tables of 7 processors', 'K1 accept/reject vs returned task list', 'K3 payload vectors drained', 'K1 StoredPoint::_update keeps the old version until complete (shared with C04)'],
 )
 
 CALLBACK = 'ProcessPubPoint::'
@@ -224,4 +226,6 @@ def rule_commit(ctx):
     who_calls(ctx, 'K3', 'payload::validation::SnapshotBuilder::process_pub_point', ['payload::validation::ValidationReport::into_snapshot'])
 
 
-RULES = [rule_process_object, rule_processors, rule_tasks_returned, rule_ca_task, rule_commit]
+from props.C04 import rule_update_body  # noqa: E402  (aborted update must leave the stored version usable)
+
+RULES = [rule_process_object, rule_processors, rule_tasks_returned, rule_ca_task, rule_commit, rule_update_body]
